@@ -138,18 +138,25 @@ func runC06(c *Ctx) {
 				return true
 			})
 			okPeer := false
+			// the spawned body: a literal, or a helper that took its place; its parameter is
+			// identified with the loop variable it is started with
+			var g *eng.Func
 			if lit, isLit := eng.Unparen(gs.Call.Fun).(*ast.FuncLit); isLit {
-				g := p.FuncOfLit(lit)
-				if len(gs.Call.Args) == 1 && eng.SameExpr(info, gs.Call.Args[0], rg.Value) && g.Type.Params != nil && len(g.Type.Params.List) == 1 {
-					pp := g.Info().Defs[g.Type.Params.List[0].Names[0]]
-					for _, sc := range g.Calls(fa.sendCallee) {
-						if len(sc.Args) >= 2 && eng.IsObj(g.Info(), sc.Args[1], pp) {
-							okPeer = true
-						}
-					}
-					// the error is only logged: no return value, no panic
-					c.Check(K(g.Name, "failure isolated"), lit.Pos(), g.Type.Results == nil && len(g.Calls("builtin.panic")) == 0, "a recipient's failure stays inside its worker", "worker returns a value or panics")
+				g = p.FuncOfLit(lit)
+			} else if eng.CalleeName(info, gs.Call) != fa.sendCallee {
+				if t := p.Func(eng.CalleeName(info, gs.Call)); t != nil && t.IsSpawned() {
+					g = t
 				}
+			}
+			if g != nil {
+				loopVar := eng.ObjOf(info, rg.Value)
+				for _, sc := range g.Calls(fa.sendCallee) {
+					if len(sc.Args) >= 2 && loopVar != nil && eng.IsObj(g.Info(), sc.Args[1], loopVar) {
+						okPeer = true
+					}
+				}
+				// the error is only logged: no return value, no panic
+				c.Check(K(g.Name, "failure isolated"), g.Pos(), g.Type.Results == nil && len(g.Calls("builtin.panic")) == 0, "a recipient's failure stays inside its worker", "worker returns a value or panics")
 			} else if eng.CalleeName(info, gs.Call) == fa.sendCallee {
 				okPeer = len(gs.Call.Args) == 1 && eng.SameExpr(info, gs.Call.Args[0], rg.Value)
 			}
